@@ -118,6 +118,14 @@ impl PngData {
                     key_chunks.insert(chunk.name, chunk.data.to_owned());
                 }
                 _ if opts.strip.keep(&chunk.name) => {
+                    // The animation chunks only make sense together, so strip them all unless all are kept
+                    if matches!(&chunk.name, b"acTL" | b"fcTL" | b"fdAT")
+                        && !(opts.strip.keep(b"acTL")
+                            && opts.strip.keep(b"fcTL")
+                            && opts.strip.keep(b"fdAT"))
+                    {
+                        continue;
+                    }
                     if chunk.is_c2pa() {
                         // StripChunks::None is the default value, so to keep optimizing by default,
                         // interpret it as stripping the C2PA metadata.
